@@ -384,7 +384,7 @@ func c01RandomScopeCase(r *Rng) c01ScopeCase {
 			ops = append(ops, op)
 		}
 	}
-	q := []string{"A", "A.b", "A.*", "B", "B.*", ".x", "A.", "PKG_OPTIONS.*", "PKG_OPTIONS.p0", "A.c", "B.x.y", "Z"}
+	q := []string{"A", "A.b", "A.*", "B", "B.*", ".x", ".*", "A.", "PKG_OPTIONS.*", "PKG_OPTIONS.p0", "A.c", "B.x.y", "Z"}
 	return c01ScopeCase{ops: ops, names: q}
 }
 
@@ -665,10 +665,15 @@ func c01CompareResolve(ctx *Ctx, res *Result, cases []c01ResolveCase, kind strin
 			continue
 		}
 		out := unhx(f[3])
-		if len(out) > len(c.text)+budget {
+		// all the text there is: no expansion that uses every variable at most once can be longer
+		material := len(c.text)
+		for _, o := range append(append([]pkglint.VerifScopeOp(nil), c.all...), c.pkg...) {
+			material += len(o.Line) + len(o.Value) + 1
+		}
+		if len(out) > len(c.text)+budget && len(out) > material {
 			// the specification (C01_resolve_output_bounded) evaluated on the implementation's output
 			rep["impl"] = out
-			res.AddViolation(Violation{Key: "C01/growth/resolveExprs", What: fmt.Sprintf("%s returns %d bytes, more than the text plus all variable values (%d + %d)", c.readable(), len(out), len(c.text), budget),
+			res.AddViolation(Violation{Key: "C01/growth/resolveExprs", What: fmt.Sprintf("%s returns %d bytes, more than the text plus all variable values (%d + %d) and more than all lines together (%d)", c.readable(), len(out), len(c.text), budget, material),
 				FoundInput: true, Size: len(jobs[i]), Replay: rep})
 			continue
 		}
